@@ -78,6 +78,14 @@ def exec_HIST(t):
                 out.append(flags(x) + ':' + ''.join(rec.ev))
             elif parts[0] == 'I':
                 q = frac(parts[2])
+                if size > 0 and hist_of(len(out), size, int(q * 4) % 1013) % 2 == 0:
+                    # (content-determined) first an element *object* taken from x is written with values far beyond both bounds: that is a
+                    # write to the element object — x sees neither a flag nor a callback from it (its values are shared, its status is not)
+                    e = x[int(parts[1])]
+                    e.set_val(2.0 ** 60)
+                    if s:
+                        e.set_val(-2.0 ** 60)
+                    e.set_val(0.3 * 2.0 ** -f)
                 x[int(parts[1])] = C.build('fxp', [q])[0] if (hist_of(len(out), int(q * 4) % 1009) % 3 == 0 and C.ok_for('fxp', [q])) else pyval(q)
                 out.append(flags(x) + ':' + ''.join(rec.ev))
             elif parts[0] == 'R':
